@@ -207,8 +207,31 @@ impl<'s, R: de::read::take::Take> DecompressionState<'s, R> {
 				decompression_buffer,
 			} => {
 				let (reader, config) = deserializer_state.into_inner();
+				let mut buf_reader = reader.into_inner();
+				// We need to manually drive the decompressor to the end by asking to read
+				// the rest of the data. If the serialized avro is correct, this should not
+				// yield anything (otherwise the block holds more than its object count
+				// announces), but if we don't, the decompressor may not have read the last
+				// bytes of the compressed data (or any of it, if the objects are
+				// zero-sized), resulting in an error when checking that there's no data
+				// left in the block.
+				// (See also https://github.com/gyscos/zstd-rs/issues/255)
+				let mut drive_reader_to_end_buf = [0];
+				let read = std::io::Read::read(&mut buf_reader, &mut drive_reader_to_end_buf)
+					.map_err(|e| {
+						de::DeError::custom_io(
+							"Decompression error when driving decompressor to end",
+							e,
+						)
+					})?;
+				if read != 0 {
+					return Err(de::DeError::new(
+						"Decompression error: There's decompressed data left in the \
+							block after reading the whole avro block out of it",
+					));
+				}
 				(
-					(match reader.into_inner().into_inner() {
+					(match buf_reader.into_inner() {
 						#[cfg(feature = "deflate")]
 						DecompressionReaderForBufReader::Deflate(reader) => reader.into_inner(),
 						#[cfg(feature = "bzip2")]
@@ -216,31 +239,7 @@ impl<'s, R: de::read::take::Take> DecompressionState<'s, R> {
 						#[cfg(feature = "xz")]
 						DecompressionReaderForBufReader::Xz(reader) => reader.into_inner(),
 						#[cfg(feature = "zstandard")]
-						DecompressionReaderForBufReader::Zstandard(mut reader) => {
-							// With zstandard, we need to manually drive the reader to the end by
-							// asking to deserialize the rest of the data. If the serialized avro is
-							// correct, this should not yield anything, but if we don't, it won't
-							// read the last bytes of the compressed data, resulting in an error
-							// when checking that there's no data left in the block.
-							// https://github.com/gyscos/zstd-rs/issues/255
-							let mut drive_reader_to_end_buf = [0];
-							let read =
-								std::io::Read::read(&mut reader, &mut drive_reader_to_end_buf)
-									.map_err(|e| {
-										de::DeError::custom_io(
-											"Zstandard error when driving decompressor to end",
-											e,
-										)
-									})?;
-							if read != 0 {
-								return Err(de::DeError::new(
-									"Zstandard decompression error: There's \
-									decompressed data left in the \
-									block after reading the whole avro block out of it",
-								));
-							}
-							reader.finish()
-						}
+						DecompressionReaderForBufReader::Zstandard(reader) => reader.finish(),
 					})
 					.into_left_after_take()?,
 					config,
@@ -253,7 +252,14 @@ impl<'s, R: de::read::take::Take> DecompressionState<'s, R> {
 				source_reader,
 			} => {
 				let (reader, config) = deserializer_state.into_inner();
-				(source_reader, config, reader.into_inner().into_inner())
+				let cursor = reader.into_inner();
+				if cursor.position() < cursor.get_ref().len() as u64 {
+					return Err(de::DeError::new(
+						"Decompression error: There's decompressed data left in the \
+							block after reading the whole avro block out of it",
+					));
+				}
+				(source_reader, config, cursor.into_inner())
 			}
 		})
 	}
